@@ -248,6 +248,26 @@ def run(pid, tier, seed):
                          [(lastw, "WStart"), ("sig", "HRemoved"), (lastw, "TempCreate"), ("main", "Recv"),
                           ("main", "MainExit"), (lastw, "TempRegister")], None,
                          "plan:removal-pass-between-create-and-register"))
+        # (c') behaviours of the specification itself (TLC simulation of S4Run with SIG, the measured DROPFIRST and scanned
+        #      REGATOMIC) replayed through the turnstile: the signal is raised at the hook passage the behaviour puts it after
+        sim_plans = 0
+        for keys in [c for c in combos if len(c) <= 3]:
+            n = len(keys)
+            dts = [[1, 1, 1]] * n if keys[0].startswith("j") else [[1]] * n
+            plans, _r = runmodel.simulate_plans(os.path.join(sc, "sim"), [[1, 1, 1] if k.startswith("j") or k.startswith("J") else [1, 1] for k in keys],
+                                                num=(6 if tier == "quick" else 60), depth=300, seed=rng.randrange(1 << 20),
+                                                tmpw=set(range(1, n + 1)), sig=True, dropfirst=dropfirst)
+            for plan, sigspec in plans:
+                if not sigspec:
+                    continue
+                # message counts of the real sources differ from the abstract ones: keep the cleanup-relevant part of the
+                # order (temp create / register, handler steps, main exit) and the first sends
+                keep = [e for e in plan if e[1] in ("TempCreate", "TempRegister", "HCleared", "HRemoved", "HFlag", "MainExit")]
+                sthread, spoint, sk = sigspec.split(":")
+                if spoint not in ("TempCreate", "TempRegister") and int(sk) > 0:
+                    continue
+                jobs.append((keys, {"S4_VERIF_SIGINT": sigspec, "S4_VERIF_PLAN_TIMEOUT_MS": "500"}, keep, None, "plan:tlc-behaviour"))
+                sim_plans += 1
         # (d) externally timed signals swept over the run
         sweep = 6 if tier == "quick" else 40
         for keys in (combos[1], combos[3]) if tier == "quick" else combos:
@@ -346,7 +366,7 @@ def run(pid, tier, seed):
                        "a thread was held at a hook point",
                "samples": samples, "tlc_configs": details, "dropfirst_measured": dropfirst, "regatomic_scanned": runmodel.reg_atomic(),
                "model_predictions": sorted(predictions),
-               "exit_before_worker_drop_windows_seen": windows, "signal_placements": len([r for r in results if r["label"].startswith("sigint")]),
+               "exit_before_worker_drop_windows_seen": windows, "tlc_behaviours_replayed": sim_plans, "signal_placements": len([r for r in results if r["label"].startswith("sigint")]),
                "exhaustive": False}
         cov.update(rep.coverage)
         rep.coverage = cov
